@@ -169,3 +169,14 @@ MANIFEST_TEXT['C14'] = dict(
     text='Coq theorems on the admission function (the order of wsHandler): admitted iff auth, check-client, origin and sub-protocol negotiation all pass and the id is not connected; refused => no callback; negotiation characterised (requested and supported, first supported wins, fails only without a match). The function is compared with the real ws server over loopback sockets on the enumerated configuration x handshake matrix, and callbacks are counted on the server for every handshake.',
     note='Trusted: Coq kernel, extraction, harness; gorilla/websocket, net/http and the loopback stack are exercised, not verified.',
     technique='Coq proof over a pure admission function + enumerated differential correspondence on real loopback sockets')
+
+PROPS['C13'] = Prop('C13', harness='c13', entries=['c13', 'c13b'], props_file='theories/Props/C13.v', quick_n=1, thorough_n=1,
+                    trusted=WS_TRUST + ['raw gorilla clients as peers; the harness waits for quiescence (goroutine dump + grace periods) after every event and re-runs a disagreeing sequence with stretched grace periods'],
+                    assumptions=['handler-atomic granularity: a handshake, a connection end and its cleanup are one step each; the order "new-client callback before the first message / before the disconnected callback of a connection that dies at once" (F21) and writers blocked on a full outQueue during cleanup (F6) are finer than the model',
+                                 'only handshakes that pass auth / check / origin / negotiation are events of this model (C14 covers the others)'],
+                    rule='real ws server on loopback: seeded random sequences (4-17 events over 3 ids) of connect / duplicate connect / client close frame / abrupt TCP reset (SO_LINGER 0) / StopConnection / server Write / server Stop, compared with the registry model after every event (callbacks, refusals, write results, GetChannel of every id); plus concurrent connect bursts on 2 ids judged by a monitor (one winner per id, callback counts, registry empty afterwards); quick 27 sequences + 6 bursts, thorough 400 + 120',
+                    design_ref='5 C13', monitor_prefixes=['C13'], confirm_slow=True, harness_timeout=3000)
+MANIFEST_TEXT['C13'] = dict(
+    text='Coq theorems on the registry LTS, for every sequence of events: at most one live connection per id; a duplicate connect is refused without callback and leaves the existing connection untouched; every connection is in exactly one lifecycle state (nothing / refused / connected once and registered / connected once then disconnected once, same id, in that order); the reported ids are exactly the live connections; Write succeeds exactly for registered ids. The model is compared with the real server over loopback sockets after every event of seeded sequences, and concurrent bursts are judged by a monitor on the implementation.',
+    note='Trusted: Coq kernel, extraction, harness; gorilla/websocket, net/http, TCP loopback exercised, not verified. Partial: pump-level interleavings inside one connection (cleanup vs blocked writers, run() before the new-client handler) are below the model\'s granularity.',
+    technique='Coq invariant proof over a registry LTS + differential correspondence on real loopback sockets + burst monitor')
